@@ -63,14 +63,15 @@ def unbalanced_range(rng, lines):
 PLACES = ["same", "sub", "parent"]
 
 
-def cut(rng, files, ncuts, allow_unbalanced=False):
-    """Returns (files-with-includes, description) or None."""
+def cut(rng, files, ncuts, allow_unbalanced=False, start_at=None):
+    """Returns (files-with-includes, description) or None.  start_at: the first cut begins at that line of the
+    (single) file given - the line becomes the first line of a resource."""
     files = {k: list(v) for k, v in files.items()}
     desc = []
     resolve = {}
     nfrag = 0
     real = set(files)
-    for _ in range(ncuts):
+    for n in range(ncuts):
         f = rng.choice(sorted(real))
         if allow_unbalanced:
             r = unbalanced_range(rng, files[f])
@@ -78,6 +79,8 @@ def cut(rng, files, ncuts, allow_unbalanced=False):
                 return None
         else:
             rs = balanced_ranges(files[f])
+            if n == 0 and start_at is not None:
+                rs = [x for x in rs if x[0] == start_at]
             if not rs:
                 continue
             r = rng.choice(rs)
@@ -240,9 +243,17 @@ def run(chk):
                 odd = rng.choice(["\x0c", "\x85", "\u2028", "\r", "\x0b", "\x1c", "\r"])
                 at = rng.randint(0, len(lines))
                 lines = lines[:at] + ["# page" + odd + "break"] + lines[at:]
+            bom = None
+            if rng.random() < 0.15:
+                # a key line that begins with U+FEFF - an ordinary character, part of the key - wherever it stands,
+                # also as the first line of a resource
+                ks = [i for i, l in enumerate(lines) if i > 0 and str(l).strip() and str(l).strip()[0] not in "<%#"]
+                if ks:
+                    bom = rng.choice(ks)
+                    lines = lines[:bom] + ["\ufeff" + str(lines[bom]).strip()] + lines[bom + 1:]
             base = sc.add(sid, {"d/main.conf": lines}, meta={"nontrivial": False})
             for v in range(4):
-                c = cut(rng, {"d/main.conf": lines}, rng.choice([1, 2, 3]))
+                c = cut(rng, {"d/main.conf": lines}, rng.choice([1, 2, 3]), start_at=bom if v == 0 else None)
                 if c is None:
                     continue
                 files, desc, resolve = c
